@@ -197,7 +197,13 @@ func runC18(c *Ctx) {
 	rec = func(mode string, all []c18Key, start string, prefix []c18Key, d int) {
 		// a script ending in a numeric argument is not comparable: the argument would
 		// apply to the next K in S1 and to the end-of-macro key in S2
-		if len(prefix) > 0 && prefix[len(prefix)-1].name != "M-2" && prefix[len(prefix)-1].name != "2" {
+		// (a 0 typed after the digit extends the argument: "2 0" is still a pending argument)
+		last := len(prefix) - 1
+		for last > 0 && prefix[last].name == "0" {
+			last--
+		}
+		endsInArg := len(prefix) > 0 && (prefix[last].name == "M-2" || prefix[last].name == "2")
+		if len(prefix) > 0 && !endsInArg {
 			cases = append(cases, c18Case{mode: mode, start: start, keys: append([]c18Key{}, prefix...)})
 		}
 		if d == n {
@@ -249,8 +255,9 @@ func runC18(c *Ctx) {
 			c.NontrivialN++
 		}
 		if c.Evaluations%997 == 3 {
-			_, o1 := lastObs(t1)
-			c.Sample(map[string]any{"case": cs.String(), "final_buffer": o1.Line, "final_cursor": o1.Pos})
+			if _, o1 := lastObs(t1); o1 != nil {
+				c.Sample(map[string]any{"case": cs.String(), "final_buffer": o1.Line, "final_cursor": o1.Pos})
+			}
 		}
 		if fp == "" {
 			if strings.HasPrefix(what, "not judged") {
